@@ -87,6 +87,10 @@ namespace Dec
 def fresh (cap : Option Nat) : Dec :=
   { raw := 0, crc := crcInit, st := .look 0 0, zc := 0, buf := Buf.new cap }
 
+/-- `Decoder::from_buf(buf)` (decode.rs:100-106): the caller's buffer is cleared, the decoder is new -/
+def fromBuf (b : Buf) : Dec :=
+  { raw := 0, crc := crcInit, st := .look 0 0, zc := 0, buf := b.clear }
+
 /-- `reset` (decode.rs:394-407): returns the number of discarded bytes -/
 def reset (d : Dec) : Dec × Nat :=
   let n := match d.st with
